@@ -32,7 +32,7 @@ type C15Case struct {
 
 // msgOffset returns the offset a message cites: the number that follows the first "offset" / "position" / "index" keyword
 // (messages may carry further text, e.g. a hint in parentheses, behind it).
-var reCitedOffset = regexp.MustCompile(`(?i)\b(?:offset|position|index|pos)\s*:?\s*(\d+)`)
+var reCitedOffset = regexp.MustCompile(`(?i)\b(?:offset|position|index|pos|byte)\s*:?\s*(\d+)`)
 
 func msgOffset(msg string) int {
 	var m []string
@@ -102,8 +102,28 @@ func checkMessage(msg, arg string) (kind, problem string) {
 		}
 		return "unexpected", ""
 	}
+	// any other wording that still cites an offset: with a quoted lexeme it is judged like "unknown", without one like "expected id"
+	if m := reCitedOffset.FindStringSubmatchIndex(msg); m != nil {
+		n, _ := strconv.Atoi(msg[m[2]:m[3]])
+		if q := reQuoted.FindStringSubmatch(msg[:m[0]]); q != nil {
+			lex := q[1]
+			if n < 0 || n+len(lex) > len(arg) {
+				return "unknown", fmt.Sprintf("offset %d + lexeme length %d lies outside the %d-byte argument", n, len(lex), len(arg))
+			}
+			if arg[n:n+len(lex)] != lex {
+				return "unknown", fmt.Sprintf("argument has %q at offset %d, not the cited %q", arg[n:n+len(lex)], n, lex)
+			}
+			return "unknown", ""
+		}
+		if n < 0 || n > len(arg) {
+			return "expected_id", fmt.Sprintf("offset %d lies outside the %d-byte argument", n, len(arg))
+		}
+		return "expected_id", ""
+	}
 	return "", ""
 }
+
+var reQuoted = regexp.MustCompile("['\"`]([^'\"`]+)['\"`]")
 
 func judgeC15(c *Ctx, cs C15Case) {
 	bad := string(cs.Bad)
